@@ -453,6 +453,63 @@ def ev_dtype_range(case):
 EVALUATORS = {"block": ev_block, "variants": ev_variants, "columns": ev_columns, "history": ev_history, "dtype_range": ev_dtype_range}
 
 
+def ev_large(case):
+    """Large samples (hundreds of thousands of points), where a brute-force pair search is impossible: the three clauses are
+    decided on the sorted sample with sliding windows (every window of exactly c consecutive order statistics, c = number of
+    points the reported interval holds - an interval between two sample values holding c points contains such a window)."""
+    from inference.pdf.hdi import sample_hdi
+
+    n, fam = case["n"], case["family"]
+    q = (np.arange(n) + 0.5) / n
+    if fam == "gamma2-jitter":
+        # an interior optimum and irregular spacings (deterministic jitter), so that neighbouring windows really differ
+        from scipy import stats
+
+        base = stats.gamma(2.0).ppf(q) + 2e-3 * np.sin(1.2345 * np.arange(n)) * (1 + np.arange(n) % 3)
+    elif fam == "exp":
+        base = -np.log1p(-q)
+    elif fam == "neg-exp":
+        base = np.log1p(-q[::-1]) + 0.0
+    else:  # bimodal with ties
+        base = np.round(np.where(q < 0.6, np.sqrt(2) * _erfinv(2 * (q / 0.6) - 1), 5.0 + 0.6 * np.sqrt(2) * _erfinv(2 * ((q - 0.6) / 0.4) - 1)), 4)
+    base = base[np.isfinite(base)]
+    n = base.size
+    perm = (np.arange(n) * 7919) % n  # a fixed scrambling (7919 is prime and does not divide n for the listed sizes)
+    x = base[perm]
+    srt = np.sort(x)
+    fails, tags = [], set()
+    k = 0
+    for f in case["fractions"]:
+        before = x.copy()
+        with lib("sample_hdi-large"):
+            r = np.asarray(sample_hdi(x, f), dtype=float)
+        k += 1
+        if not np.array_equal(x, before):
+            fails.append(fail("large/input-modified", f"n={n} f={f}", n=n, fraction=f))
+        lo, hi = float(r[0]), float(r[1])
+        i0, i1 = np.searchsorted(srt, lo, "left"), np.searchsorted(srt, hi, "right")
+        if not (i0 < n and srt[i0] == lo and i1 > 0 and srt[i1 - 1] == hi):
+            fails.append(fail("large/endpoints-not-sample-values", f"n={n} f={f}: [{lo},{hi}]", n=n, fraction=f))
+            continue
+        cnt = int(i1 - i0)
+        if cnt < f * n - 1e-9:
+            fails.append(fail("large/holds-less-than-fraction", f"n={n} f={f}: {cnt} points < {f * n}", n=n, fraction=f))
+        best = float((srt[cnt - 1 :] - srt[: n - cnt + 1]).min())
+        if best < (hi - lo):
+            fails.append(fail("large/not-shortest", f"n={n} f={f}: width {hi - lo!r} but a window of {cnt} points has width {best!r}", n=n, fraction=f))
+        tags.add(f"large:{fam}:n={'<=2e5' if n <= 200000 else '>2e5'}")
+    return {"fails": fails, "n": k, "tags": tags}
+
+
+def _erfinv(y):
+    from scipy.special import erfinv
+
+    return erfinv(np.clip(y, -1 + 1e-16, 1 - 1e-16))
+
+
+EVALUATORS["large"] = ev_large
+
+
 def run(ck):
     seed = ck.seed
     quick = ck.quick
@@ -469,6 +526,8 @@ def run(ck):
             for prefix in itertools.product(range(len(AA)), repeat=plen):
                 cases.append({"alphabet": AA, "n": n, "prefix": list(prefix), "fractions": FRACTIONS})
     ck.run_cases("block", cases, chunk=1)
+    ck.run_cases("large", [dict(n=n, family=fam, fractions=[0.1, 0.3, 0.5, 0.68, 0.95]) for n in ((100003, 250007) if quick else (100003, 200003, 250007, 1000003))
+                           for fam in ("gamma2-jitter", "exp", "neg-exp", "bimodal-ties")], chunk=1)
     # variants on all multisets up to n=5 (6 thorough) over the first alphabet, plus a few long ones
     vcases = []
     for A in alphabets:
